@@ -172,6 +172,9 @@ curve!(g_ed25519, ed25519,
     },
     extra: |pt, sc, a, rg, put| {
         "vh" => { let p = pt(0, rg)?; let r = pt(1, rg)?; let s = sc(2)?; let k = sc(3)?; Ok(obool(p.verify_helper_vartime(&r, &s, &k))) },
+        "pkfp" => { let p = pt(0, rg)?; let sig = bytes(arg(a, 1)?)?; let msg = bytes(arg(a, 2)?)?;
+            let pk = crrl::ed25519::PublicKey::from_point(&p);
+            Ok(format!("{} {}", ohex(&pk.encode()), obool(pk.verify_raw(&sig, &msg)))) },
         "has_low_order" => { let p = pt(0, rg)?; Ok(ou32(p.has_low_order())) },
         "is_in_subgroup" => { let p = pt(0, rg)?; Ok(ou32(p.is_in_subgroup())) },
         "mont_u" => { let p = pt(0, rg)?; Ok(ohex(&p.to_montgomery_u().encode())) },
@@ -191,6 +194,9 @@ curve!(g_ed448, ed448,
     },
     extra: |pt, sc, a, rg, put| {
         "vh" => { let p = pt(0, rg)?; let r = pt(1, rg)?; let s = sc(2)?; let k = sc(3)?; Ok(obool(p.verify_helper_vartime(&r, &s, &k))) },
+        "pkfp" => { let p = pt(0, rg)?; let sig = bytes(arg(a, 1)?)?; let msg = bytes(arg(a, 2)?)?;
+            let pk = crrl::ed448::PublicKey::from_point(&p);
+            Ok(format!("{} {}", ohex(&pk.encode()), obool(pk.verify_raw(&sig, &msg)))) },
         "has_low_order" => { let p = pt(0, rg)?; Ok(ou32(p.has_low_order())) },
         "is_in_subgroup" => { let p = pt(0, rg)?; Ok(ou32(p.is_in_subgroup())) },
         "mont_u" => { let p = pt(0, rg)?; Ok(ohex(&p.to_montgomery_u().encode())) },
@@ -336,6 +342,11 @@ macro_rules! jq_curve {
                 },
                 "coords" => { let p = pt(0, rg)?; let c = p.verif_coords();
                     Ok(format!("{} {} {} {}", ohex(&c[0].encode()), ohex(&c[1].encode()), ohex(&c[2].encode()), ohex(&c[3].encode()))) },
+                "pkfp" => { let p = pt(0, rg)?; let sig = bytes(arg(a, 1)?)?; let msg = bytes(arg(a, 2)?)?;
+                    let pk = crrl::$m::PublicKey::from_point(&p);
+                    Ok(format!("{} {}", ohex(&pk.encode()), obool(pk.verify(&sig, "", &msg)))) },
+                "skfs" => { let s = sc(0)?; let sk = crrl::$m::PrivateKey::from_scalar(&s);
+                    Ok(format!("{} {}", ohex(&sk.encode()), ohex(&sk.public_key.encode()))) },
                 "jextra" => { $xf(a) },
             });
     };
@@ -374,6 +385,12 @@ curve!(g_gls254, gls254,
             let u = crrl::gls254::Scalar::from_u64(u0) + crrl::gls254::Scalar::from_u64(u1) * crrl::gls254::Scalar::MU;
             put(p * u + crrl::gls254::Point::mulgen(&v), rg)
         },
+        "pkfp" => { let p = pt(0, rg)?; let sig = bytes(arg(a, 1)?)?; let msg = bytes(arg(a, 2)?)?;
+            let pk = crrl::gls254::PublicKey::from_point(&p);
+            Ok(format!("{} {}", ohex(&pk.encode()), obool(pk.verify(&sig, "", &msg)))) },
+        "skfs" => { let s = sc(0)?; let sk = crrl::gls254::PrivateKey::from_scalar(&s);
+            Ok(format!("{} {}", ohex(&sk.encode()), ohex(&sk.public_key.encode()))) },
+        "set_zeta" => { let mut p = pt(0, rg)?; let n = u32a(arg(a, 1)?)?; p.set_zeta(n); put(p, rg) },
         "zeta" => { let p = pt(0, rg)?; let n = u32a(arg(a, 1)?)?; put(p.zeta(n), rg) },
         "split_mu" => {
             let s = sc(0)?;
